@@ -2170,6 +2170,7 @@ _EXC_NAMES = {
     "Exception", "ValueError", "TypeError", "IndexError", "KeyError", "AttributeError", "RuntimeError",
     "IOError", "OSError", "FileExistsError", "StopIteration", "ZeroDivisionError", "RuntimeWarning",
     "KeyboardInterrupt", "Empty", "NameError", "FrozenInstanceError", "LookupError", "BaseException",
+    "DeprecationWarning", "UserWarning", "Warning", "NotImplementedError", "ImportError",
 }
 _DUNDER = {ast.Add: "__add__", ast.Mult: "__mul__", ast.Div: "__truediv__", ast.Sub: "__sub__"}
 _RDUNDER = {ast.Add: "__radd__", ast.Mult: "__rmul__"}
